@@ -285,6 +285,32 @@ fn lc_stream(rng: &mut Rng) -> Vec<DltMessage> {
     v
 }
 
+/// large id populations (still far below the pseudonym capacity of 999 per table), interleaved
+fn ids_stream(rng: &mut Rng) -> Vec<DltMessage> {
+    let ecus = ["ECUA", "ECUB", "EC"];
+    let mut v = Vec::new();
+    for t in 0..450usize {
+        let e = *rng.pick(&ecus);
+        let a = format!("A{:02}", rng.below(60));
+        let c = format!("C{}", rng.below(4));
+        let text = format!("id msg {}", t);
+        let (noar, pl) = verb(&[A::Str(&text)]);
+        let ext = if rng.chance(1, 12) { None } else { Some(DltExtendedHeader { verb_mstp_mtin: V_LOG_INFO, noar, apid: char4(&a), ctid: char4(&c) }) };
+        v.push(DltMessage {
+            index: t as u32,
+            reception_time_us: BASE_US + t as u64 * 1000,
+            ecu: char4(e),
+            timestamp_dms: 1000 + t as u32 * 10,
+            standard_header: DltStandardHeader { htyp: 0x30 | if ext.is_some() { 1 } else { 0 }, mcnt: (t & 0xff) as u8, len: 0 },
+            extended_header: ext,
+            payload: pl,
+            payload_text: None,
+            lifecycle: 0,
+        });
+    }
+    v
+}
+
 fn file_stream(path: &str, n: usize) -> Vec<DltMessage> {
     let f = std::fs::File::open(path).expect("open example file");
     let ext = std::path::Path::new(path).extension().and_then(|s| s.to_str()).unwrap_or("").to_string();
@@ -481,6 +507,7 @@ fn main() {
             "mixed" => mixed_stream(&mut rng),
             "kf" => kf_stream(&mut rng),
             "lc" => lc_stream(&mut rng),
+            "ids" => ids_stream(&mut rng),
             "file" => file_stream(e["file"].as_str().unwrap(), e["n"].as_u64().unwrap() as usize),
             other => panic!("unknown stream {}", other),
         };
